@@ -38,6 +38,7 @@ pub fn gen_case(prop: &str, rng: &mut Rng) -> ConcCase {
     // cancellation (both are unwinds through salsa's claim guards) therefore run on OS threads.
     let fam = match family(prop) {
         "mixed" if cfg!(feature = "shuttle") => *rng.pick(&["acyclic", "cyclic", "cyclic"]),
+        "mixed" if prop == "C23" => *rng.pick(&["churn", "churn", "acyclic", "cyclic", "cycpanic", "writer", "cancel"]),
         "mixed" => *rng.pick(&["acyclic", "cyclic", "cyclic", "cycpanic", "writer", "cancel"]),
         f => f,
     };
@@ -46,6 +47,7 @@ pub fn gen_case(prop: &str, rng: &mut Rng) -> ConcCase {
         "writer" => gen_writer_case(rng),
         "cancel" => gen_cancel_case(rng),
         "create" => gen_create_case(rng),
+        "churn" => gen_acyclic_case_w("C01", rng, false, false, 3),
         "faultwait" => {
             // few nodes, every thread asks for overlapping functions right after a write, so that
             // one thread computes while the other waits
@@ -82,7 +84,126 @@ fn all_reqs(prog: &Prog, cfg: &GenCfg, rng: &mut Rng, accum: bool) -> Vec<Req> {
 }
 
 fn gen_acyclic_case(base: &str, rng: &mut Rng, intern_heavy: bool, accum: bool) -> ConcCase {
+    gen_acyclic_case_w(base, rng, intern_heavy, accum, 1)
+}
+
+/// Directed struct churn: 2-3 makers, each switched on/off by its own input cell, functions keyed
+/// by their structs (two function ingredients share the struct type, so the structs' memo tables
+/// have several entries). The pre-history memoizes everything, then flips the switches at once, so
+/// that in the parallel phase one thread discards structs together with their memos while another
+/// creates structs of the same type (re-using the slots just freed) and memoizes functions on them.
+fn gen_delcreate_case(rng: &mut Rng) -> ConcCase {
+    let k = rng.range(2, 3);
+    let b = |e: Expr| Box::new(e);
+    let mut nodes: Vec<Node> = Vec::new();
+    for j in 0..k {
+        let mut mk = Vec::new();
+        for i in 0..rng.range(1, 2) {
+            mk.push(MkEnt {
+                when: Expr::In(j, 0),
+                ident: Expr::Bin(Op::Add(2), b(Expr::Const(rng.below(2) as u16)), b(Expr::Const(0))),
+                t0: if rng.chance(1, 2) { Expr::In(j, 1) } else { Expr::Const(i as u16) },
+                t1: Expr::Const(rng.below(3) as u16),
+                t2: Expr::Const(0),
+                specify: None,
+                spec_when: None,
+                pre_read: false,
+                twice: false,
+            });
+        }
+        nodes.push(Node {
+            kind: Kind::Maker,
+            body: Expr::Const(0),
+            mk,
+            fb: 0,
+            lru_maker: false,
+            lru_fix: false,
+        });
+    }
+    let plain = |body: Expr| Node {
+        kind: Kind::Plain,
+        body,
+        mk: vec![],
+        fb: 0,
+        lru_maker: false,
+        lru_fix: false,
+    };
+    for j in 0..k {
+        nodes.push(plain(Expr::OnEnt(j, 0)));
+        match rng.below(3) {
+            0 => nodes.push(plain(Expr::Spec(j, 0))),
+            1 => nodes.push(plain(Expr::Bin(Op::Add(97), b(Expr::OnEnt(j, 1)), b(Expr::Spec(j, 0))))),
+            _ => nodes.push(plain(Expr::EntField(j, 0, Fld::T0))),
+        }
+    }
+    let first_plain = k;
+    let np = nodes.len();
+    if rng.chance(1, 2) {
+        let (x, y) = (rng.range(first_plain, np - 1), rng.range(first_plain, np - 1));
+        nodes.push(plain(Expr::Bin(Op::Add(97), b(Expr::Call(x)), b(Expr::Call(y)))));
+    }
+    let prog = Prog {
+        nodes,
+        ncells: k,
+        nunt: 0,
+        on_ent: Expr::Bin(Op::Add(97), b(Expr::SelfField(Fld::Ident)), b(Expr::SelfField(Fld::T0))),
+        on_sym: Expr::Const(0),
+        spec: Expr::Bin(Op::Add(89), b(Expr::SelfField(Fld::T1)), b(Expr::Const(7))),
+    };
+    let set = |c: usize, f: usize, v: u16| Step::Set { cell: c, field: f, val: v, dur: None };
+    // switches: at least one maker on and one off, then all (or all but one) are flipped
+    let mut on: Vec<bool> = (0..k).map(|_| rng.chance(1, 2)).collect();
+    on[0] = true;
+    on[1] = false;
+    let mut pre = Vec::new();
+    for j in 0..k {
+        pre.push(set(j, 0, on[j] as u16));
+        pre.push(set(j, 1, rng.below(3) as u16));
+    }
+    for n in first_plain..prog.nodes.len() {
+        pre.push(Step::Req(node_req(&prog, n)));
+    }
+    let keep = if k > 2 && rng.chance(1, 3) { Some(rng.range(2, k - 1)) } else { None };
+    for j in 0..k {
+        if Some(j) != keep {
+            pre.push(set(j, 0, !on[j] as u16));
+        }
+    }
+    let nt = rng.range(2, 4);
+    let mut threads = Vec::new();
+    for t in 0..nt {
+        let mut ops = Vec::new();
+        // the first two threads start with "their" maker's functions: one deletes, one creates
+        if t < 2 {
+            ops.push(TOp::Req(node_req(&prog, first_plain + 2 * t)));
+        }
+        for _ in 0..rng.range(1, 5) {
+            ops.push(TOp::Req(node_req(&prog, rng.range(first_plain, prog.nodes.len() - 1))));
+        }
+        threads.push(ops);
+    }
+    ConcCase {
+        prog,
+        pre,
+        threads,
+        mode: Mode::Readers,
+        post_all: true,
+        fault_at: None,
+    }
+}
+
+/// `churn_w`: the struct-churning sub-family is chosen with probability `churn_w`/3.
+fn gen_acyclic_case_w(base: &str, rng: &mut Rng, intern_heavy: bool, accum: bool, churn_w: u32) -> ConcCase {
+    // a third of the plain acyclic cases churn tracked structs: several makers, functions keyed by
+    // the structs, and several writes at once before the parallel phase, so that one thread deletes
+    // structs (and their memos) while another creates structs of the same type
+    let churn = base == "C01" && rng.chance(churn_w, 3);
+    if churn && rng.chance(1, 2) {
+        return gen_delcreate_case(rng);
+    }
+    let base = if churn { *rng.pick(&["C06", "C07"]) } else { base };
     let mut cfg = gen_cfg(base, rng);
+    cfg.entries_reqs = false;
     cfg.max_nodes = 7;
     cfg.hist_len = (4, 12);
     cfg.lru_makers = false;
@@ -96,12 +217,14 @@ fn gen_acyclic_case(base: &str, rng: &mut Rng, intern_heavy: bool, accum: bool) 
     if rng.chance(2, 3) {
         pre = gen_history(rng, &cfg, &prog);
         pre.truncate(rng.range(3, 12));
-        pre.push(Step::Set {
-            cell: rng.below(prog.ncells),
-            field: rng.below(2),
-            val: rng.below(cfg.vmod as usize) as u16,
-            dur: None,
-        });
+        for _ in 0..if churn { rng.range(1, 4) } else { 1 } {
+            pre.push(Step::Set {
+                cell: rng.below(prog.ncells),
+                field: rng.below(2),
+                val: rng.below(cfg.vmod as usize) as u16,
+                dur: None,
+            });
+        }
     }
     let reqs = all_reqs(&prog, &cfg, rng, accum);
     let nt = rng.range(2, 4);
@@ -133,7 +256,11 @@ fn gen_cyclic_case(base: &str, rng: &mut Rng, prop: &str) -> ConcCase {
     let base = if base == "C12" && rng.chance(1, 3) { "C13" } else { base };
     let mut cfg = cyc_cfg(base, rng);
     cfg.max_nodes = 5;
+    PEEK_NZ.store(base == "C12" || peek_nz_env(), std::sync::atomic::Ordering::Relaxed);
     let prog = gen_prog(rng, &cfg);
+    PEEK_NZ.store(peek_nz_env(), std::sync::atomic::Ordering::Relaxed);
+    // programs with a value-controlled callee set of the second kind start from a fresh database
+    let fresh_only = prog.nodes.iter().any(|n| crate::camp_single::has_peeknz(&n.body));
     let bits = cfg.cyclic.as_ref().map(|c| c.bits).unwrap_or(2);
     let mut pre = Vec::new();
     for c in 0..prog.ncells {
@@ -151,7 +278,7 @@ fn gen_cyclic_case(base: &str, rng: &mut Rng, prop: &str) -> ConcCase {
     // the `_changed` pattern: memos of an earlier revision exist (fixpoint programs only; for
     // cycle_result programs that pattern runs into known finding F4 in almost every case)
     let all_fix = prog.nodes.iter().all(|n| matches!(n.kind, Kind::Fix | Kind::FixJ));
-    if all_fix && prop != "C14" && rng.chance(1, 4) {
+    if all_fix && prop != "C14" && rng.chance(1, 4) && !fresh_only {
         for n in 0..prog.nodes.len() {
             if rng.chance(1, 2) {
                 pre.push(Step::Req(Req::Node(n)));
@@ -308,8 +435,9 @@ fn gen_create_case(rng: &mut Rng) -> ConcCase {
     for t in 0..nt {
         let mut ops = Vec::new();
         for j in 0..rng.range(4, 12) {
-            match rng.below(4) {
+            match rng.below(5) {
                 0 => ops.push(TOp::Req(node_req(&prog, rng.below(prog.nodes.len())))),
+                4 if j > 0 => ops.push(TOp::Rehandle),
                 1 => ops.push(TOp::Create(1, (rng.below(6)) as u16)),
                 2 => ops.push(TOp::Create(2, (rng.below(6)) as u16)),
                 _ => ops.push(TOp::Create(0, (t * 100 + j) as u16)),
@@ -342,7 +470,7 @@ fn is_cyclic_prog(prog: &Prog) -> bool {
     fn calls_up(e: &Expr, me: usize) -> bool {
         match e {
             Expr::Call(n) | Expr::CallMulti(n, _) => *n >= me,
-            Expr::PeekZ(..) => true,
+            Expr::PeekZ(..) | Expr::PeekNZ(..) => true,
             Expr::If(a, b, c) => calls_up(a, me) || calls_up(b, me) || calls_up(c, me),
             Expr::Bin(_, a, b) => calls_up(a, me) || calls_up(b, me),
             Expr::Intern(_, a) | Expr::OnSym(a) | Expr::Acc(a) => calls_up(a, me),
@@ -379,6 +507,8 @@ pub fn check_iter(prop: &str, case: &ConcCase, res: &IterResult) -> IterVerdict 
         .any(|t| t.iter().any(|o| matches!(o, TOp::Cancel(_))));
     let writer = case.mode == Mode::WriterReaders;
     v.extend(res.write_violations.iter().cloned());
+    v.extend(res.held_violations.iter().cloned());
+    c.add("held_handles_read_back", res.held_read_back);
     if res.stuck {
         v.push("threads made no progress (watchdog): see protocol trace analysis".into());
     }
@@ -1101,6 +1231,15 @@ pub fn classify_conc(case: &ConcCase, res: &IterResult, violations: &[String]) -
         .nodes
         .iter()
         .all(|n| matches!(n.kind, Kind::Fix | Kind::FixJ));
+    if all_fix
+        && !res.stuck
+        && violations.iter().any(|v| v.contains("too many cycle iterations"))
+        && case.prog.nodes.iter().any(|n| crate::camp_single::has_peek(&n.body))
+    {
+        // known finding F18 (monotone program with a value-controlled callee set oscillates); once a
+        // head has panicked the other requests of the revision see propagated panics
+        return Some("C12/value_controlled_callee_set/iteration_limit_on_monotone_program");
+    }
     if all_fix && !res.stuck && violations.iter().all(|v| v.contains("reference says") && v.contains("returned Val(")) {
         // the `_changed` pattern can run into known finding F5 (stale inner head): classified by the
         // single-threaded classifier on the post-phase requests (same log format)
@@ -1174,6 +1313,10 @@ pub fn conc_case(o: &Opts, case_seed: u64) -> CaseReport {
     let case = Arc::new(case);
     let prop = o.prop.clone();
     crate::sink::TRACE_DG.store(true, std::sync::atomic::Ordering::Relaxed);
+    crate::sink::READ_BACK.store(
+        matches!(o.prop.as_str(), "C08" | "C16" | "C24"),
+        std::sync::atomic::Ordering::Relaxed,
+    );
     crate::sink::RELAXED_CLOCK.store(o.sub.contains("tsan") || o.sub.contains("miri"), std::sync::atomic::Ordering::Relaxed);
 
     #[cfg(feature = "shuttle")]
@@ -1302,7 +1445,7 @@ pub fn conc_case(o: &Opts, case_seed: u64) -> CaseReport {
                 c2.fault_at = Some(1 + mix(case_seed, 77 + k as u64) % fault_total);
                 case = Arc::new(c2);
             }
-            let profile = 1 + (mix(case_seed, k as u64) % 5);
+            let profile = 1 + (mix(case_seed, k as u64) % 6);
             crate::sink::FP_PROFILE.store(profile, std::sync::atomic::Ordering::Relaxed);
             crate::sink::FP_SEED.store(mix(case_seed, 1000 + k as u64), std::sync::atomic::Ordering::Relaxed);
             let res = run_iteration(&case, wd);
